@@ -76,12 +76,12 @@ def _gen_op(rng, name):
                                      "shuffled"])}
     if name == "tag_s":
         return {"op": name, "name": rng.choice(["s", "sub", "s2", "omega"]),
-                "frac": rng.choice([0.1, 0.3, 0.5, 0.9]), "seed": sd,
+                "frac": rng.choice([0.0, 0.1, 0.3, 0.5, 0.9]), "seed": sd,
                 "how": rng.choice(["idx", "idx", "pred"]),
                 "axis": rng.randrange(3), "c": rng.choice([0.3, 0.5, 0.7])}
     if name == "tag_b":
         return {"op": name, "name": rng.choice(["b", "bnd", "b2", "gamma"]),
-                "frac": rng.choice([0.1, 0.3, 0.5, 1.0]), "seed": sd,
+                "frac": rng.choice([0.0, 0.1, 0.3, 0.5, 1.0]), "seed": sd,
                 "where": rng.choice(["boundary", "interior", "any", "any"]),
                 "oriented": rng.random() < 0.25}
     if name == "transform":
@@ -165,6 +165,8 @@ class WarnCatcher(logging.Handler):
 
 def _subset(n, frac, seed, at_least=1):
     r = random.Random(seed)
+    if frac == 0.0:
+        at_least = 0          # an empty selection, on purpose
     k = max(at_least, min(n, int(round(frac * n))))
     return np.array(sorted(r.sample(range(n), k)), dtype=np.int32)
 
@@ -990,6 +992,19 @@ def _check_join(st, so, ns, probes):
     else:
         ncomp = n
     if ns.p.shape[1] != ncomp:
+        # Is the whole discrepancy explained by coincident vertices whose
+        # coordinates straddle an 8-decimal rounding boundary (Mesh.__add__
+        # merges by equality after round(8))?  That is known finding K4; any
+        # other cause keeps the generic class.
+        straddle = 0
+        for i, j in sorted(pairs):
+            if (np.round(allp[:, i], 8) != np.round(allp[:, j], 8)).any():
+                straddle += 1
+        if straddle and ns.p.shape[1] - ncomp <= straddle and \
+                ns.p.shape[1] > ncomp:
+            raise Bad("surgery-join-rounding-boundary-pair-not-merged",
+                      expected=int(ncomp), got=int(ns.p.shape[1]),
+                      straddling_pairs=int(straddle))
         raise Bad("surgery-join-vertex-count", expected=int(ncomp),
                   got=int(ns.p.shape[1]))
     tot = s.total() + so.total()
